@@ -1,17 +1,40 @@
 /-
   C04 — scalar values decode to the value PostgreSQL stored; type names.
-  Property theorems only; helper lemmas are in Proofs/ScalarsRT.lean (and ScalarsCal / ScalarsRange).
+  Property theorems only; helper lemmas are in Proofs/ScalarsRT.lean (and ScalarsCal / ScalarsRange / ScalarsFrac /
+  ScalarsJsonParse / TxtNumerals).
 
   Shape of every per-type theorem: for every well-formed abstract value `v` of the type (Spec.Scalars:
   `Val`, `WF` = valid stored value in the type's common range), running the model of DecodeType on
   PostgreSQL's stored representation `enc v` under the type's oid returns exactly `view v`, the value a
-  correct tool must show.  `ext` (the decoders of other areas and `encoding/json`) is arbitrary.
+  correct tool must show.  `ext` (the decoders of other areas and `encoding/json`) is arbitrary, except in `C04_json`.
+
+  Which types have what (the file has one round-trip theorem per type or type group, not "41, one per type"):
+   * full round trip, every well-formed value: bool, "char", name, int2, int4, int8, oid, xid, cid, float4, float8 (bit
+     pattern passed through), money (all of int64), text / varchar / bpchar / xml (non-empty valid UTF-8), bytea
+     (non-empty), bit / varbit (every length), date, timestamp, timestamptz (years 0001..9999 and ±infinity, microsecond
+     resolution), time, timetz (every zone −15:59:59..+15:59:59, microseconds), interval (int32 × int32 × int64,
+     microseconds), uuid, macaddr, macaddr8, inet / cidr (v4, v6, every prefix length), point, lseg, box, line, circle
+     (floats as bit patterns: `%g` is not modelled, the harness parses the text back), int4range, int8range, daterange,
+     tsrange, tstzrange (all 32 flag bytes), json (`C04_json`: with the documented behaviour of encoding/json.Unmarshal,
+     `Model.ScalarsJsonLib`, as the library);
+   * partial, because a recorded finding carves out the rest (explicit hypothesis, concrete counter-example theorem):
+     tid (A11: only block numbers whose 16-bit halves are equal — among blocks 0..65535 that is block 0 only),
+     pg_lsn (A10: only LSNs whose 32-bit halves are equal), numrange (A16: only `empty` and `(,)`: no finite bound);
+   * no round trip at all: path, polygon (A17: every stored value is decoded in the wrong layout; `C04_path_finding`);
+   * type names: `C04_typeName` / `C04_typeName_only` for the 51 scalar type oids; the 51 array type oids have no name
+     (recorded finding ARRNAME, `C04_typeName_arrays_finding`).
+  Text renderings: the Spec's view is written from PostgreSQL's output formats and value definitions (see the header of
+  Spec/Scalars.lean for what is its own and what it shares with the model: only the numeral library `PgVerif.Txt`, whose
+  functions are characterised independently — `C04_numerals`).
 -/
 import PgVerif.Proofs.ScalarsRT
 import PgVerif.Proofs.ScalarsBits
 import PgVerif.Proofs.ScalarsTime
 import PgVerif.Proofs.ScalarsRange
 import PgVerif.Proofs.ScalarsMoney
+import PgVerif.Proofs.ScalarsFrac
+import PgVerif.Proofs.TxtNumerals
+import PgVerif.Proofs.ScalarsJsonParse
 namespace PgVerif.Props.C04
 open PgVerif PgVerif.Model.Scalars PgVerif.Spec.Scalars PgVerif.Txt PgVerif.Proofs.ScalarsRT
 
@@ -27,6 +50,42 @@ theorem C04_typeName : ∀ e ∈ pgTypeNames, typeName e.1 = asc e.2 := by decid
 /-- Conversely, every oid in 0..5000 to which TypeName gives a name (rather than `oid:<n>`) is a
 supported type and the name is PostgreSQL's: the tool never shows a wrong type name. -/
 theorem C04_typeName_only : ∀ e ∈ Generated.Scalars.typeNames, ∃ p ∈ pgTypeNames, p.1 = e.1 ∧ asc p.2 = e.2 := by decide
+
+/-- The recorded finding ARRNAME, as a theorem: for every one of the 51 array types whose values DecodeType decodes (the
+keys of `arrayElemTypes`, which are exactly the oids of `Spec.pgArrayTypeNames`), TypeName answers `oid:<n>` — not
+PostgreSQL's name `_<element type>`.  `C04_typeName` above therefore holds for the scalar type oids only. -/
+theorem C04_typeName_arrays_finding :
+    (∀ e ∈ pgArrayTypeNames, typeName e.1 = asc "oid:" ++ decNat e.1 ∧ typeName e.1 ≠ asc e.2) ∧
+    (∀ e ∈ pgArrayTypeNames, (arrayElemTypes.lookup e.1).isSome = true) ∧
+    (∀ p ∈ arrayElemTypes, (pgArrayTypeNames.lookup p.1).isSome = true) := by
+  refine ⟨by decide, by decide, by decide⟩
+
+/-! ### the numerals every text view is made of -/
+
+/-- The numeral functions shared by the Spec's views and the model (`PgVerif.Txt`) are what their names say, by
+characterisations that do not mention them (Proofs/TxtNumerals.lean: `decVal` / `hexVal` read a digit string most
+significant digit first): `decNat n` is the decimal numeral of value `n` without leading zero, and the only one;
+`padNat w n` is the only string of exactly `w` decimal digits with value `n` (for n < 10^w); `decInt` is injective;
+`hexNat u n` is the hexadecimal numeral of `n` in the given case, without leading zero, the only one; `hexPad w n` the only
+`w`-digit one; `hexBytes` is two hexadecimal digits per byte and injective.  A wrong numeral function could therefore not
+satisfy the round-trip theorems of this file unnoticed. -/
+theorem C04_numerals :
+    (∀ n, Proofs.TxtNumerals.decVal (decNat n) = some n) ∧
+    (∀ n s, Proofs.TxtNumerals.decVal s = some n → (s = [48] ∨ s.head? ≠ some 48) → s = decNat n) ∧
+    (∀ w n s, s.length = w → 0 < w → Proofs.TxtNumerals.decVal s = some n → s = padNat w n) ∧
+    (∀ w n, n < 10 ^ w → 0 < w → (padNat w n).length = w ∧ Proofs.TxtNumerals.decVal (padNat w n) = some n) ∧
+    (∀ a b : Int, decInt a = decInt b → a = b) ∧
+    (∀ u n, Proofs.TxtNumerals.hexVal u (hexNat u n) = some n) ∧
+    (∀ u n s, Proofs.TxtNumerals.hexVal u s = some n → (s = [48] ∨ s.head? ≠ some 48) → s = hexNat u n) ∧
+    (∀ w n s, s.length = w → 0 < w → Proofs.TxtNumerals.hexVal false s = some n → s = hexPad w n) ∧
+    (∀ bs, (hexBytes bs).length = 2 * bs.length) ∧
+    (∀ a b, hexBytes a = hexBytes b → a = b) :=
+  ⟨Proofs.TxtNumerals.decNat_val, Proofs.TxtNumerals.decNat_unique,
+   fun w n s h1 h2 h3 => Proofs.TxtNumerals.padNat_unique w n s h1 h2 h3,
+   fun w n h hw => ⟨Proofs.TxtNumerals.padNat_of_lt w n h hw, Proofs.TxtNumerals.padNat_val w n⟩,
+   Proofs.TxtNumerals.decInt_injective, Proofs.TxtNumerals.hexNat_val, Proofs.TxtNumerals.hexNat_unique,
+   fun w n s h1 h2 h3 => Proofs.TxtNumerals.hexPad_unique w n s h1 h2 h3,
+   Proofs.TxtNumerals.hexBytes_length, Proofs.TxtNumerals.hexBytes_injective⟩
 
 /-! ### bool, "char", integers, oid / xid / cid, floats -/
 
@@ -96,22 +155,24 @@ theorem C04_float8 (ext : Ext) (b : Nat) (h : (Val.float8 b).WF) : RoundTrip ext
   rw [decodeType_701 ext _ (by simp)]
   simp only [decFloat8, u64, uN_le1 8 b hn, ok_bind, pure_eq_ok]
 
-/-- money: every amount with |cents| < 10¹⁵ is shown as the exact decimal `$[-]units.cc`.  The tool
-computes `float64(cents)/100` and prints it with `%.2f`; the proof shows that the two binary64 roundings
-(modelled exactly: round to nearest even) and the final decimal rounding cannot move the value by half
-a cent in this range (`moneyText_exact`). -/
+/-- money: every int64 amount of cents — from −9223372036854775808 to 9223372036854775807 — is shown as the exact
+decimal `$[-]units.cc` (fix 11: integer arithmetic).  The Spec's view is written from the integer value
+(sign, |c| / 100, `.`, two digits of |c| mod 100). -/
 theorem C04_money (ext : Ext) (c : Int) (h : (Val.money c).WF) : RoundTrip ext (.money c) := by
-  have h' : -(10 ^ 15 : Int) < c ∧ c < (10 ^ 15 : Int) := by simpa [Val.WF, Val.wf] using h
-  have hin : inI 64 c = true := by
-    simp only [inI, Bool.and_eq_true, decide_eq_true_eq, Nat.reduceSub, Int.reducePow]
-    have := h'.1; have := h'.2
-    simp only [Int.reducePow] at *
-    omega
+  have hin : inI 64 c = true := h
   show decodeType ext (le 8 (ofSigned 64 c)) 790 = _
   rw [decodeType_790 ext _ (by simp)]
   simp only [decMoney, i64, uN_le1 8 _ (ofSigned_lt 64 c), ok_bind, pure_eq_ok, toSigned_ofSigned64 c hin]
-  rw [Proofs.Money.moneyText_exact c h'.1 h'.2]
   simp only [view, List.append_assoc]
+
+/-- the defect repaired by fix 11, on the reviewer's witness: the former code `fmt.Sprintf("$%.2f", float64(cents)/100)`
+(modelled exactly by `Txt.moneyText`: two correctly rounded binary64 operations, then `%.2f`) prints
+7036874417766401 cents as `70368744177664.02`; the exact value is `70368744177664.01`.  (Below 10¹⁵ the old code was
+right: `Proofs.Money.moneyText_exact`.) -/
+theorem C04_money_old_defect :
+    moneyText 7036874417766401 = asc "70368744177664.02" ∧
+    view (.money 7036874417766401) = .str (asc "$70368744177664.01") := by
+  exact ⟨by decide +kernel, rfl⟩
 
 /-! ### text-like, bytea -/
 
@@ -131,30 +192,47 @@ theorem C04_bytea (ext : Ext) (b : Bytes) (h : (Val.bytea b).WF) : RoundTrip ext
   show decodeType ext b 17 = _
   rw [decodeType_17 ext b h']; rfl
 
-/-- json: the stored text is handed unchanged to the JSON library and its result is returned: whenever
-the library parses the serialisation of a document to that document (`encoding/json`'s contract, checked
-by the correspondence run on every generated document), the decoded value is the document.
-Partial: the JSON parser itself is a parameter, not modelled. -/
-theorem C04_json_partial (ext : Ext) (d : JV) (ws : Nat)
-    (hlib : ext.jsonUnmarshal (d.render ws) = some d.view) (hne : (d.render ws).length ≥ 1) :
-    RoundTrip ext (.json d ws) := by
+/-- json: the stored text is handed unchanged to `encoding/json.Unmarshal` and its result is returned.  With the library's
+documented behaviour as the library (`Model.ScalarsJsonLib.jsonUnmarshal`: the neutral RFC 8259 parser `Spec.Json.parse`,
+numbers to the nearest float64 with out-of-range as an error, objects as maps with the last duplicate winning), for EVERY
+well-formed document — any nesting, strings with any bytes incl. quotes, backslashes and control characters (escaped by the
+encoder), numbers ±m·10^e with m < 10^20, |e| ≤ 30 in all three notations (plain, decimal point, exponent), unique keys — and
+each of the three whitespace styles, the decoded value is the document (numbers as the nearest float64).  The hypothesis
+`hext` names the library model; that the real `encoding/json` behaves like it is the stated library contract, checked by
+the correspondence run on every generated document (the driver uses this very function as `ext.jsonUnmarshal`).
+(Replaces `C04_json_partial`, whose hypothesis was its own conclusion.) -/
+theorem C04_json (ext : Ext) (hext : ext.jsonUnmarshal = Model.ScalarsJsonLib.jsonUnmarshal) (d : JV) (ws : Nat)
+    (h : (Val.json d ws).WF) : RoundTrip ext (.json d ws) := by
+  have h' : d.wf = true ∧ ws ≤ 2 := by simpa [Val.WF, Val.wf] using h
   show decodeType ext (d.render ws) 114 = .ok d.view
-  rw [decodeType_114 ext _ hne]
-  simp [decJSON, hlib]
+  rw [decodeType_114 ext _ (Proofs.ScalarsJsonParse.render_length_pos d ws)]
+  simp [decJSON, hext, Proofs.ScalarsJsonParse.jsonUnmarshal_render d ws h'.1 h'.2]
+
+/-- non-vacuity of `C04_json`: a scalar-model `Ext` whose JSON library is the library model exists (the other three decoders
+do not matter here), and a nested document with an escape, a multi-byte character and the numbers −12.5, 10³⁰ and 2⁵³+1 is
+well-formed in every whitespace style -/
+example : ∃ ext : Ext, ext.jsonUnmarshal = Model.ScalarsJsonLib.jsonUnmarshal :=
+  ⟨{ decodeArray := fun _ _ => pure .nil, decodeNumeric := fun _ => pure .nil, parseJSONB := fun _ => pure .nil,
+     jsonUnmarshal := Model.ScalarsJsonLib.jsonUnmarshal }, rfl⟩
+
+example : (Val.json (.obj [(asc "k", .arr [.num true 125 (-1), .num false 1 30, .num false 9007199254740993 0]),
+    ([0xC3, 0xA9], .str [34, 10, 0xF0, 0x9F, 0x98, 0x80]), ([], .null)]) 2).WF := by decide
 
 /-! ### time of day, interval -/
 
-/-- time: every value 00:00:00 .. 24:00:00 is shown as hh:mm:ss (whole seconds). -/
+/-- time: every value 00:00:00 .. 24:00:00 (microsecond resolution) is shown as PostgreSQL shows it,
+`hh:mm:ss[.ffffff]`: the fields are those of time2tm (successive division and subtraction, `Spec.timeFields`), the
+fraction is printed when it is not zero, without trailing zeros (fix 12). -/
 theorem C04_time (ext : Ext) (us : Nat) (h : (Val.time us).WF) : RoundTrip ext (.time us) := by
   have hu : us ≤ 86400000000 := by simpa [Val.WF, Val.wf] using h
   show decodeType ext (le 8 us) 1083 = _
   rw [decodeType_1083 ext _ (by simp)]
   simp only [decTime, i64, uN_le1 8 us (by omega), ok_bind, pure_eq_ok]
-  rw [toSigned_small 64 us (by simp; omega), fmtTimeOfDay_nat]
+  rw [toSigned_small 64 us (by simp; omega), Proofs.ScalarsFrac.timeOfDay_text]
   rfl
 
-/-- timetz: every time of day with every zone offset −15:59:59..+15:59:59 is shown with the full zone
-`+hh[:mm[:ss]]`, east positive (A13 repaired). -/
+/-- timetz: every time of day (microsecond resolution) with every zone offset −15:59:59..+15:59:59 is shown as
+`hh:mm:ss[.ffffff]` followed by the full zone `+hh[:mm[:ss]]`, east positive (A13 repaired; fix 12 for the fraction). -/
 theorem C04_timetz (ext : Ext) (us : Nat) (z : Int) (h : (Val.timetz us z).WF) : RoundTrip ext (.timetz us z) := by
   have h' : us ≤ 86400000000 ∧ -57600 < z ∧ z < 57600 := by
     simpa [Val.WF, Val.wf, and_assoc] using h
@@ -166,11 +244,13 @@ theorem C04_timetz (ext : Ext) (us : Nat) (z : Int) (h : (Val.timetz us z).WF) :
     have := uN_le 4 (ofSigned 32 z) 8 (le 8 us) [] (by simp) (ofSigned_lt 32 z)
     simpa using this
   simp only [decTimeTZ, i64, i32, r1, r2, ok_bind, pure_eq_ok]
-  rw [toSigned_small 64 us (by simp; omega), fmtTimeOfDay_nat, toSigned_ofSigned32 z hz, fmtZone_eq]
+  rw [toSigned_small 64 us (by simp; omega), Proofs.ScalarsFrac.timeOfDay_text, toSigned_ofSigned32 z hz, fmtZone_eq]
   rfl
 
-/-- interval: months, days and microseconds of every sign are all shown, each component with its own
-sign (A14 repaired), at whole-second resolution. -/
+/-- interval: months, days and microseconds of every sign (all of int32 × int32 × int64) are all shown: the fields of
+interval2itm (`Spec.intervalFields`: years, months, days, hours, minutes, seconds, microseconds by truncating division
+and subtraction), each non-zero field with its own sign (A14 repaired), the seconds with their fraction at microsecond
+resolution (`0.5s`, `-6.25s`; fix 12), `0` for the zero interval.  The notation is injective on the fields. -/
 theorem C04_interval (ext : Ext) (months days us : Int) (h : (Val.interval months days us).WF) :
     RoundTrip ext (.interval months days us) := by
   have h' : inI 32 months = true ∧ inI 32 days = true ∧ inI 64 us = true := by
@@ -187,7 +267,9 @@ theorem C04_interval (ext : Ext) (months days us : Int) (h : (Val.interval month
   have hl : ¬ (le 8 (ofSigned 64 us) ++ le 4 (ofSigned 32 days) ++ le 4 (ofSigned 32 months)).length < 16 := by simp
   simp only [decodeInterval, hl, if_false, i64, i32, r1, r2, r3, ok_bind, pure_eq_ok]
   rw [toSigned_ofSigned64 us h'.2.2, toSigned_ofSigned32 days h'.2.1, toSigned_ofSigned32 months h'.1]
-  exact ite_ok_str _ _ _
+  refine (ite_ok_str _ (asc "0") _).trans ?_
+  show Except.ok (GoVal.str _) = Except.ok (GoVal.str (intervalText months days us))
+  rw [← Proofs.ScalarsFrac.interval_text months days us]
 
 /-! ### geometric types with fixed width (floats carried as bit patterns, NaN payloads collapsed) -/
 
@@ -531,11 +613,10 @@ example : (Val.int2 (-32768)).WF ∧ (Val.int8 9223372036854775807).WF ∧ (Val.
 
 /-- C04 for every abstract value: every well-formed stored value of every supported scalar type decodes
 to the value a correct tool must show, except inside the four recorded classes (pg_lsn and tid with unequal
-halves, numrange with a finite bound, path / polygon), and — for json — given that the JSON library
-parses the stored text to the document.  Partial exactly by those hypotheses. -/
-theorem C04_all_partial (ext : Ext) (v : Val) (h : v.WF)
-    (hk : kfPgLsn v = false ∧ kfTid v = false ∧ kfNumRange v = false ∧ kfPath v = false)
-    (hjson : ∀ d ws, v = .json d ws → ext.jsonUnmarshal (d.render ws) = some d.view) : RoundTrip ext v := by
+halves, numrange with a finite bound, path / polygon).  `hext` names the JSON library (`C04_json`); the array, numeric and
+jsonb decoders of `ext` are arbitrary.  Partial exactly by the four carve-outs `hk`. -/
+theorem C04_all_partial (ext : Ext) (hext : ext.jsonUnmarshal = Model.ScalarsJsonLib.jsonUnmarshal) (v : Val) (h : v.WF)
+    (hk : kfPgLsn v = false ∧ kfTid v = false ∧ kfNumRange v = false ∧ kfPath v = false) : RoundTrip ext v := by
   cases v with
   | bool b => exact C04_bool ext b
   | char c => exact C04_char ext c
@@ -551,7 +632,7 @@ theorem C04_all_partial (ext : Ext) (v : Val) (h : v.WF)
   | float8 b => exact C04_float8 ext b h
   | money c => exact C04_money ext c h
   | text ty s => exact C04_text ext ty s h
-  | json d ws => exact C04_json_partial ext d ws (hjson d ws rfl) (render_length d ws)
+  | json d ws => exact C04_json ext hext d ws h
   | bytea b => exact C04_bytea ext b h
   | bit vb bits => exact C04_bit ext vb bits h
   | date d => exact C04_date ext d h
